@@ -34,6 +34,14 @@
 (*                       the design in which the lifecycle is started before the registration:   *)
 (*                       the removal may then precede the Set, and a Set landing after the       *)
 (*                       removal is the named deviation "lateSet" (nothing removes that record). *)
+(*   Register / BridgeCreated carry where the mapping's TARGET client has its control            *)
+(*   connection at that moment (field loc: "same" node, "other" node, "none"): the as-is code     *)
+(*   publishes the record regardless.  SkipLocalTarget = TRUE models the design that skips the    *)
+(*   registration when the target is connected to the source node - deviation "notPublished".     *)
+(*   EvictScan(m,t) / EvictWrite(t)  (EvictingLookup = TRUE only) a lookup on the memory backend  *)
+(*   that found the lapsed, never swept entry of an earlier registration of t reclaims it in a    *)
+(*   second step - by then the key may hold a NEW live record: deviation "evictedLive".  As-is    *)
+(*   lookups are read-only (LookupPure) and lapsed entries are simply invisible.                  *)
 (*   Tick            the waiting period elapses (key TTL and ExpiresAt lapse together)        *)
 (*   LateLookup(m,t) the same lookup for an id that is not (any more) waiting: a late or      *)
 (*                   replayed TunnelOpen                                                      *)
@@ -63,6 +71,8 @@ CONSTANTS Nodes, Tunnels,
           Mode,         \* "atomic": Register / Remove as single events (RoutingTable API level)
                         \* "split" : BridgeCreated / RecordSet / TunnelEnds / RecordRemoved (call sites)
           LifecycleFirst,
+          SkipLocalTarget,   \* the design that does not publish a record when the target is connected to the source node
+          EvictingLookup,    \* the design whose lookups reclaim lapsed entries in a second, unsynchronised step
           Emit, Only    \* Only = "dev": print a behaviour only when its last event sets the deviation
 
 VARIABLES shape,
@@ -72,12 +82,18 @@ VARIABLES shape,
                     \*   (the period runs from the moment the record's Set was issued)
           flight,   \* tunnel -> [p, node, ver, left]  the record's Set is in flight (left = what remains of its period)
           rmpend,   \* tunnel -> node on which the tunnel ended and whose lifecycle removal has not run yet | "-"
-          dev,      \* ghost: tunnel -> a Set landed after the removal ("lateSet") and its record is still there
+          dev,      \* ghost: tunnel -> names of the deviations that currently affect it:
+                    \*   "lateSet" a Set landed after the removal and its record is still there,
+                    \*   "notPublished" the waiting tunnel's record was never written,
+                    \*   "evictedLive" a lookup reclaimed the live record
+          stale,    \* tunnel -> a lapsed, unswept entry of an earlier registration is still under the key (memory)
+          pe,       \* tunnel -> a lookup saw that stale entry and has its reclaim pending
+          lkWrote,  \* ghost: some lookup modified the store
           nreg,     \* tunnel -> registrations so far
           clock, hist
-vars    == <<shape, rec, addr, bridge, flight, rmpend, dev, nreg, clock, hist>>
-view    == <<shape, rec, addr, bridge, flight, rmpend, dev, nreg>>
-genview == <<shape, rec, addr, bridge, flight, rmpend, dev, nreg, clock>>
+vars    == <<shape, rec, addr, bridge, flight, rmpend, dev, stale, pe, lkWrote, nreg, clock, hist>>
+view    == <<shape, rec, addr, bridge, flight, rmpend, dev, stale, pe, lkWrote, nreg>>
+genview == <<shape, rec, addr, bridge, flight, rmpend, dev, stale, pe, lkWrote, nreg, clock>>
 
 NoRec    == [node |-> "-", ver |-> 0, ttl |-> 0]
 NoBridge == [on |-> FALSE, node |-> "-", ver |-> 0, left |-> 0]
@@ -89,14 +105,18 @@ Init == /\ shape \in Shapes
         /\ bridge = [t \in Tunnels |-> NoBridge]
         /\ flight = [t \in Tunnels |-> NoFlight]
         /\ rmpend = [t \in Tunnels |-> "-"]
-        /\ dev = [t \in Tunnels |-> FALSE]
+        /\ dev = [t \in Tunnels |-> {}]
+        /\ stale = [t \in Tunnels |-> FALSE] /\ pe = [t \in Tunnels |-> FALSE] /\ lkWrote = FALSE
         /\ nreg = [t \in Tunnels |-> 0]
         /\ clock = 0 /\ hist = <<>>
 
-Out(h) == IF Emit /\ (Only = "dev" => \E t \in Tunnels : dev'[t] /\ ~dev[t]) THEN PrintT("BEH " \o ToJson(h)) ELSE TRUE
-Log(a, n, t) == /\ hist' = Append(hist, [a |-> a, n |-> n, t |-> t])
-                /\ shape' = shape
-                /\ Out(hist')
+Out(h) == IF Emit /\ (Only = "dev" => \E t \in Tunnels : dev'[t] \ dev[t] # {}) THEN PrintT("BEH " \o ToJson(h)) ELSE TRUE
+LogL(a, n, t, loc) == /\ hist' = Append(hist, [a |-> a, n |-> n, t |-> t, loc |-> loc])
+                      /\ shape' = shape
+                      /\ Out(hist')
+Log(a, n, t) == LogL(a, n, t, "-")
+Locs == {"same", "other", "none"}
+EV == <<stale, pe, lkWrote>>
 
 \* ---- the store as the backend presents it, and the decoding type switch --------------------
 BackendValue(r) == [shape |-> shape, body |-> r]
@@ -113,26 +133,28 @@ LookupRes(t) ==
 Announce(n) ==
   /\ ~addr[n]
   /\ addr' = [addr EXCEPT ![n] = TRUE]
-  /\ UNCHANGED <<rec, bridge, flight, rmpend, dev, nreg, clock>>
+  /\ UNCHANGED <<rec, bridge, flight, rmpend, dev, nreg, clock, EV>>
   /\ Log("Announce", n, "-")
 
 Free(t) == ~bridge[t].on /\ ~flight[t].p /\ rmpend[t] = "-"      \* no bridge for t, nothing of an earlier one pending
 
-Register(n, t) ==
+Register(n, t, loc) ==
   /\ Mode = "atomic"
   /\ addr[n] /\ Free(t) /\ nreg[t] < MaxReg
   /\ nreg' = [nreg EXCEPT ![t] = @ + 1]
-  /\ rec' = [rec EXCEPT ![t] = [node |-> n, ver |-> nreg[t] + 1, ttl |-> TTL]]
+  /\ LET skip == SkipLocalTarget /\ loc = "same" IN
+     /\ rec' = IF skip THEN rec ELSE [rec EXCEPT ![t] = [node |-> n, ver |-> nreg[t] + 1, ttl |-> TTL]]
+     /\ dev' = [dev EXCEPT ![t] = IF skip THEN {"notPublished"} ELSE {}]
+     /\ stale' = IF skip THEN stale ELSE [stale EXCEPT ![t] = FALSE]          \* the Set overwrites the lapsed entry
   /\ bridge' = [bridge EXCEPT ![t] = [on |-> TRUE, node |-> n, ver |-> nreg[t] + 1, left |-> TTL]]
-  /\ dev' = [dev EXCEPT ![t] = FALSE]
-  /\ UNCHANGED <<addr, flight, rmpend, clock>>
-  /\ Log("Register", n, t)
+  /\ UNCHANGED <<addr, flight, rmpend, clock, pe, lkWrote>>
+  /\ LogL("Register", n, t, loc)
 
 Waiting(t) == bridge[t].on /\ ~flight[t].p /\ bridge[t].left > 0
 
 \* lookups do not change the modelled state (deleting an expired key is a no-op here: key TTL
 \* and ExpiresAt lapse together)
-LookupEffect == UNCHANGED <<rec, addr, bridge, flight, rmpend, dev, nreg, clock>>
+LookupEffect == UNCHANGED <<rec, addr, bridge, flight, rmpend, dev, nreg, clock, EV>>
 Lookup(m, t)     == Waiting(t)  /\ LookupEffect /\ Log("Lookup", m, t)
 LateLookup(m, t) == ~Waiting(t) /\ LookupEffect /\ Log("Lookup", m, t)
 
@@ -141,8 +163,9 @@ Remove(n, t) ==
   /\ bridge[t].on /\ bridge[t].node = n
   /\ rec' = [rec EXCEPT ![t] = NoRec]
   /\ bridge' = [bridge EXCEPT ![t] = NoBridge]
-  /\ dev' = [dev EXCEPT ![t] = FALSE]
-  /\ UNCHANGED <<addr, flight, rmpend, nreg, clock>>
+  /\ dev' = [dev EXCEPT ![t] = {}]
+  /\ stale' = [stale EXCEPT ![t] = FALSE]
+  /\ UNCHANGED <<addr, flight, rmpend, nreg, clock, pe, lkWrote>>
   /\ Log("Remove", n, t)
 
 \* ---- the same at the real call sites, step by step ------------------------------------------
@@ -152,15 +175,16 @@ BridgeCreated(n, t) ==
   /\ nreg' = [nreg EXCEPT ![t] = @ + 1]
   /\ bridge' = [bridge EXCEPT ![t] = [on |-> TRUE, node |-> n, ver |-> nreg[t] + 1, left |-> TTL]]
   /\ flight' = [flight EXCEPT ![t] = [p |-> TRUE, node |-> n, ver |-> nreg[t] + 1, left |-> TTL]]
-  /\ UNCHANGED <<rec, addr, rmpend, dev, clock>>
+  /\ UNCHANGED <<rec, addr, rmpend, dev, clock, EV>>
   /\ Log("Create", n, t)
 
 RecordSet(n, t) ==
   /\ flight[t].p /\ flight[t].node = n
   /\ rec' = [rec EXCEPT ![t] = IF flight[t].left > 0 THEN [node |-> n, ver |-> flight[t].ver, ttl |-> flight[t].left] ELSE NoRec]
   /\ flight' = [flight EXCEPT ![t] = NoFlight]
-  /\ dev' = [dev EXCEPT ![t] = flight[t].left > 0 /\ ~bridge[t].on /\ rmpend[t] = "-"]   \* lateSet: ended AND already cleaned up
-  /\ UNCHANGED bridge
+  /\ dev' = [dev EXCEPT ![t] = IF flight[t].left > 0 /\ ~bridge[t].on /\ rmpend[t] = "-" THEN {"lateSet"} ELSE {}]   \* ended AND already cleaned up
+  /\ stale' = [stale EXCEPT ![t] = FALSE]
+  /\ UNCHANGED <<bridge, pe, lkWrote>>
   /\ UNCHANGED <<addr, rmpend, nreg, clock>>
   /\ Log("Set", n, t)
 
@@ -169,7 +193,7 @@ TunnelEnds(n, t) ==
   /\ bridge[t].on /\ bridge[t].node = n
   /\ bridge' = [bridge EXCEPT ![t] = NoBridge]
   /\ rmpend' = [rmpend EXCEPT ![t] = n]
-  /\ UNCHANGED <<rec, addr, flight, dev, nreg, clock>>
+  /\ UNCHANGED <<rec, addr, flight, dev, nreg, clock, EV>>
   /\ Log("End", n, t)
 
 RecordRemoved(n, t) ==
@@ -177,24 +201,43 @@ RecordRemoved(n, t) ==
   /\ LifecycleFirst \/ ~flight[t].p        \* as-is the lifecycle goroutine is started after the Set returned
   /\ rec' = [rec EXCEPT ![t] = NoRec]
   /\ rmpend' = [rmpend EXCEPT ![t] = "-"]
-  /\ dev' = [dev EXCEPT ![t] = FALSE]
-  /\ UNCHANGED <<addr, bridge, flight, nreg, clock>>
+  /\ dev' = [dev EXCEPT ![t] = {}]
+  /\ stale' = [stale EXCEPT ![t] = FALSE]
+  /\ UNCHANGED <<addr, bridge, flight, nreg, clock, pe, lkWrote>>
   /\ Log("Removed", n, t)
+
+\* ---- the evicting lookup (memory backend, EvictingLookup only) --------------------------------
+EvictScan(m, t) ==
+  /\ EvictingLookup /\ shape = "identity" /\ stale[t] /\ ~pe[t]
+  /\ pe' = [pe EXCEPT ![t] = TRUE]
+  /\ UNCHANGED <<rec, addr, bridge, flight, rmpend, dev, stale, lkWrote, nreg, clock>>
+  /\ Log("EvictScan", m, t)
+
+EvictWrite(t) ==
+  /\ pe[t]
+  /\ pe' = [pe EXCEPT ![t] = FALSE]
+  /\ rec' = [rec EXCEPT ![t] = NoRec] /\ stale' = [stale EXCEPT ![t] = FALSE]
+  /\ lkWrote' = TRUE
+  /\ dev' = IF rec[t].ttl > 0 THEN [dev EXCEPT ![t] = @ \cup {"evictedLive"}] ELSE dev
+  /\ UNCHANGED <<addr, bridge, flight, rmpend, nreg, clock>>
+  /\ Log("EvictWrite", "-", t)
 
 Tick ==
   /\ clock < MaxClock
   /\ clock' = clock + 1
   /\ rec' = [t \in Tunnels |-> IF rec[t].ttl <= 1 THEN NoRec ELSE [rec[t] EXCEPT !.ttl = @ - 1]]
   /\ bridge' = [t \in Tunnels |-> IF bridge[t].on /\ bridge[t].left > 0 THEN [bridge[t] EXCEPT !.left = @ - 1] ELSE bridge[t]]
-  /\ dev' = [t \in Tunnels |-> dev[t] /\ rec[t].ttl > 1]
+  /\ dev' = [t \in Tunnels |-> IF rec[t].ttl > 1 THEN dev[t] ELSE dev[t] \ {"lateSet"}]
+  /\ stale' = [t \in Tunnels |-> stale[t] \/ rec[t].ttl = 1]        \* a lapsed entry stays in the map until overwritten or removed
   /\ flight' = [t \in Tunnels |-> IF flight[t].p /\ flight[t].left > 0 THEN [flight[t] EXCEPT !.left = @ - 1] ELSE flight[t]]
-  /\ UNCHANGED <<addr, rmpend, nreg>>
+  /\ UNCHANGED <<addr, rmpend, nreg, pe, lkWrote>>
   /\ Log("Tick", "-", "-")
 
 Next == \/ Tick
         \/ \E n \in Nodes : Announce(n)
         \/ \E n \in Nodes, t \in Tunnels :
-             \/ Register(n, t) \/ Lookup(n, t) \/ LateLookup(n, t) \/ Remove(n, t)
+             \/ \E loc \in Locs : Register(n, t, loc)
+             \/ Lookup(n, t) \/ LateLookup(n, t) \/ Remove(n, t) \/ EvictScan(n, t) \/ EvictWrite(t)
              \/ BridgeCreated(n, t) \/ RecordSet(n, t) \/ TunnelEnds(n, t) \/ RecordRemoved(n, t)
 Spec == Init /\ [][Next]_vars
 Bounded == Len(hist) <= MaxHist
@@ -211,8 +254,11 @@ LookupExact == \A t \in Tunnels : Waiting(t) =>
 Settled(t) == ~bridge[t].on /\ rmpend[t] = "-" /\ ~flight[t].p
 Lapsed(t)  == bridge[t].on /\ ~flight[t].p /\ bridge[t].left = 0
 LookupGone      == \A t \in Tunnels : (Settled(t) \/ Lapsed(t)) => LookupRes(t).r # "found"
-LookupGoneOrDev == \A t \in Tunnels : (Settled(t) \/ Lapsed(t)) => (LookupRes(t).r # "found" \/ dev[t])
-NoDev           == \A t \in Tunnels : ~dev[t]
+LookupGoneOrDev == \A t \in Tunnels : (Settled(t) \/ Lapsed(t)) => (LookupRes(t).r # "found" \/ dev[t] # {})
+LookupExactOrDev == \A t \in Tunnels : Waiting(t) => (dev[t] # {} \/
+                 LookupRes(t) = [r |-> "found", node |-> bridge[t].node, ver |-> bridge[t].ver, addr |-> TRUE])
+NoDev           == \A t \in Tunnels : dev[t] = {}
+LookupPure      == ~lkWrote
 
 TypeOK == /\ \A t \in Tunnels : rec[t].ttl \in 0..TTL /\ nreg[t] \in 0..MaxReg
           /\ clock \in 0..MaxClock
